@@ -38,7 +38,10 @@ def main():
     try:
         rc, out = sh(["git", "-C", "/repo", "worktree", "add", "--detach", wt, "HEAD"])
         assert rc == 0, out
-        demo = os.path.join(d, "demo.py")
+        # the demonstrations locate the library relative to their own path (<root>/seeded/demo.py)
+        os.makedirs(os.path.join(wt, "seeded"), exist_ok=True)
+        demo = os.path.join(wt, "seeded", "demo.py")
+        shutil.copy(os.path.join(d, "demo.py"), demo)
         if not a.skip_confirm:
             denv = dict(os.environ)
             denv["PYTHONPATH"] = wt
